@@ -562,17 +562,31 @@ func checkAuth(c authCase) []vf.Finding {
 	// the server takes user and domain from the message it received
 	user := decodeName(a.User.Data, unicode)
 	domain := decodeName(a.Domain.Data, unicode)
+	// No user name and no password is the anonymous identity of MS-NLMP (3.3.1 / 3.3.2 "special case for
+	// anonymous authentication"): a client may then send no NT response and the LM response Z(1) instead of
+	// responses computed from the empty password. That form, and only that one, is accepted next to the
+	// computed responses; the names the message carries are judged either way.
+	anonymous := c.User == "" && c.Password == "" && len(a.NT.Data) == 0 && bytes.Equal(a.LM.Data, []byte{0})
 	if c.Flags&nlmp.FlagExtSec == 0 {
-		// NTLMv1: the NT response is defined for every password, the LM response (without a code page) for 7-bit ones
-		if want := refcrypto.DESL(nt[:], c.ServerChallenge); !bytes.Equal(a.NT.Data, want) {
-			fs = append(fs, vf.F("ntlm.CreateAuthenticateMessage", "v1-nt-response-differs-from-DESL", "pw %q: got %x want %x", c.Password, a.NT.Data, want))
+		if anonymous {
+			return fs
 		}
+		// NTLMv1: the NT response is defined for every password, the LM response (without a code page) for 7-bit ones
+		wantNT := refcrypto.DESL(nt[:], c.ServerChallenge)
+		if !bytes.Equal(a.NT.Data, wantNT) {
+			fs = append(fs, vf.F("ntlm.CreateAuthenticateMessage", "v1-nt-response-differs-from-DESL", "pw %q: got %x want %x", c.Password, a.NT.Data, wantNT))
+		}
+		// LmChallengeResponse: DESL(LMOWFv1, challenge), or one of the two forms of a client that sends no LM
+		// response (MS-NLMP 3.3.1, NoLMResponseNTLMv1: a copy of the NT response; or Z(24)) - the forms C08 accepts
 		if is7bit(c.Password) {
-			if want := refcrypto.DESL(refcrypto.LM(c.Password), c.ServerChallenge); !bytes.Equal(a.LM.Data, want) {
-				fs = append(fs, vf.F("ntlm.CreateAuthenticateMessage", "v1-lm-response-differs-from-DESL", "pw %q: got %x want %x", c.Password, a.LM.Data, want))
+			if want := refcrypto.DESL(refcrypto.LM(c.Password), c.ServerChallenge); !bytes.Equal(a.LM.Data, want) && !bytes.Equal(a.LM.Data, wantNT) && !bytes.Equal(a.LM.Data, make([]byte, 24)) {
+				fs = append(fs, vf.F("ntlm.CreateAuthenticateMessage", "v1-lm-response-differs-from-DESL", "pw %q: got %x, want DESL(LM hash, challenge) = %x, the NT response %x or 24 zero bytes", c.Password, a.LM.Data, want, wantNT))
 			}
 		}
 		return fs
+	}
+	if anonymous {
+		return append(fs, checkAuthNames(c, user, domain)...)
 	}
 	if len(a.NT.Data) < 16+28+4 {
 		// 16 bytes of proof, the 28 fixed bytes of the client blob and at least MsvAvEOL
@@ -605,8 +619,13 @@ func checkAuth(c authCase) []vf.Finding {
 			fs = append(fs, vf.F("ntlm.CreateAuthenticateMessage", "v2-lm-proof-mismatch", "got %x want %x (or 24 zero bytes)", a.LM.Data[:16], want))
 		}
 	}
-	// identity carried in the message is the supplied one, modulo letter case (NTOWFv2 upper-cases the user
-	// name, and the property does not say in which case the field carries it; C08 compares it exactly)
+	return append(fs, checkAuthNames(c, user, domain)...)
+}
+
+// checkAuthNames: the identity carried in an NTLMv2 AUTHENTICATE is the supplied one, modulo letter case
+// (NTOWFv2 upper-cases the user name, and the property does not say in which case the field carries it; C08
+// compares it exactly).
+func checkAuthNames(c authCase, user, domain string) (fs []vf.Finding) {
 	if alpha.UpperString(user) != alpha.UpperString(c.User) {
 		fs = append(fs, vf.F("ntlm.CreateAuthenticateMessage", "user-name-not-as-supplied", "got %q want %q", user, c.User))
 	}
